@@ -1,5 +1,255 @@
 import RV.Json
+import RV.Drv.Arith
+import RV.Model.CtlSts
+import RV.Oracle.CtlSts
 namespace RV.Drv.CtlSts
-open Lean RV
-def handle : Handler := fun op _ _ => .error s!"CtlSts: op {op} not implemented"
+open Lean RV RV.Arith RV.Webhook RV.CtlSts RV.Drv.Arith RV.Oracle.CtlSts
+
+/-! JSON forms: an absent block is `null`, a block that is not what it should be is the string
+    `"malformed"`, a present block is an object.  Inputs may also say `"null"`: the harness then stores a JSON
+    `null`, which every reader and the merge patch treat exactly like an absent `updateStrategy` / `rollingUpdate`
+    (`NestedFieldNoCopy` returns not-found below a nil value) and like a non-integer `partition`; `"float"`:
+    a non-integer number as partition. -/
+
+def partOfJson : Json → R PartV
+  | .null => pure .absent
+  | .str _ => pure .malformed
+  | j => do return .int (← fInt j "i")
+
+def partToJson : PartV → Json
+  | .absent => .null
+  | .malformed => strJ "malformed"
+  | .int n => mkObj [("i", intJ n)]
+
+def optBoolOfJson (j : Json) (k : String) : Option Bool :=
+  match jopt j k with
+  | some (.bool b) => some b
+  | _ => none
+
+def rubOfJson : Json → R RUB
+  | .null => pure .absent
+  | .str "null" => pure .absent
+  | .str _ => pure .malformed
+  | j => do return .present (← partOfJson (jgetD j "partition" .null)) (optBoolOfJson j "paused") (← fBool j "unordered")
+
+def rubToJson : RUB → Json
+  | .absent => .null
+  | .malformed => strJ "malformed"
+  | .present p pa un => mkObj [("partition", partToJson p), ("paused", optJ boolJ pa), ("unordered", boolJ un)]
+
+def usOfJson : Json → R US
+  | .null => pure .absent
+  | .str "null" => pure .absent
+  | .str _ => pure .malformed
+  | j => do return .present (← fStr j "type") (← rubOfJson (jgetD j "ru" .null))
+
+def usToJson : US → Json
+  | .absent => .null
+  | .malformed => strJ "malformed"
+  | .present t ru => mkObj [("type", strJ t), ("ru", rubToJson ru)]
+
+def kindOf : String → R Kind
+  | "native" => pure .native | "advanced" => pure .advanced
+  | "unstructured" => pure .unstructured | "daemonSet" => pure .daemonSet
+  | s => .error s!"ctlsts: kind {s}"
+def kindStr : Kind → String
+  | .native => "native" | .advanced => "advanced" | .unstructured => "unstructured" | .daemonSet => "daemonSet"
+
+def ownerOf : String → R Owner
+  | "none" => pure .none | "this" => pure .this | "other" => pure .other
+  | s => .error s!"ctlsts: control {s}"
+def ownerStr : Owner → String
+  | .none => "none" | .this => "this" | .other => "other"
+
+def wlOfJson (j : Json) : R Wl := do
+  return { kind := ← kindOf (← fStr j "kind"), replicas := ← fOptInt j "replicas", us := ← usOfJson (jgetD j "us" .null),
+           control := ← ownerOf (← fStr j "control"), inProgress := ← fBool j "inProgress", tmpl := ← fNat j "tmpl",
+           tmplPresent := ← fBool j "tmplPresent", updatedReady := ← fInt j "updatedReady", rest := ← fNat j "rest" }
+
+def wlToJson (w : Wl) : Json :=
+  mkObj [("kind", strJ (kindStr w.kind)), ("replicas", optJ intJ w.replicas), ("us", usToJson w.us),
+    ("control", strJ (ownerStr w.control)), ("inProgress", boolJ w.inProgress), ("tmpl", natJ w.tmpl),
+    ("tmplPresent", boolJ w.tmplPresent), ("updatedReady", intJ w.updatedReady), ("rest", natJ w.rest)]
+
+def wlOptOfJson (j : Json) (k : String) : R (Option Wl) :=
+  match jopt j k with
+  | none => pure none
+  | some v => do return some (← wlOfJson v)
+
+def editOfJson (j : Json) (k : String) : R Edit :=
+  match jopt j k with
+  | none => pure Edit.none
+  | some e => do
+    let us ← (do
+      if ← fBool e "setUS" then return some (← usOfJson (jgetD e "us" .null))
+      else return none)
+    return { tmpl := ← fOptNat e "tmpl", replicas := ← fOptInt e "replicas", us := us }
+
+def callOf : String → R Call
+  | "initialize" => pure .initialize | "upgradeBatch" => pure .upgradeBatch
+  | "finalize" => pure .finalize | "submit" => pure .submit
+  | s => .error s!"ctlsts: call {s}"
+def callStr : Call → String
+  | .initialize => "initialize" | .upgradeBatch => "upgradeBatch" | .finalize => "finalize" | .submit => "submit"
+
+def faultOf : String → R Fault
+  | "none" => pure .none | "get" => pure .get | "list" => pure .list | "write" => pure .write
+  | s => .error s!"ctlsts: fault {s}"
+
+def stepOfJson (j : Json) : R Step := do
+  return { call := ← callOf (← fStr j "call"), fault := ← faultOf (← fStr j "fault"), batch := ← fInt j "batch",
+           bpNil := ← fBool j "bpNil", edit := ← editOfJson j "edit" }
+
+def obsToJson (o : InitObs) : Json :=
+  mkObj [("observedReplicas", intJ o.observedReplicas), ("noNeedUpdate", optJ intJ o.noNeedUpdate)]
+
+def resStr : RV.CtlSts.Res → String
+  | .ok => "ok" | .err => "err" | .rejected => "rejected"
+
+def outToJson : Out StepOut → Json
+  | .panic => mkObj [("panic", strJ "?")]
+  | .val o => mkObj [("res", strJ (resStr o.res)), ("wl", optJ wlToJson o.wl),
+                     ("writes", natJ o.writes), ("obs", optJ obsToJson o.obs)]
+
+/-- the implementation's step outcome, parsed back -/
+def outOfJson (j : Json) : R (Out StepOut) :=
+  match jopt j "panic" with
+  | some _ => pure .panic
+  | none => do
+    let res ← (do match ← fStr j "res" with
+      | "ok" => pure RV.CtlSts.Res.ok
+      | "rejected" => pure RV.CtlSts.Res.rejected
+      | _ => pure RV.CtlSts.Res.err)
+    let obs ← (match jopt j "obs" with
+      | none => pure none
+      | some o => do
+        pure (some { observedReplicas := ← fInt o "observedReplicas", noNeedUpdate := ← fOptInt o "noNeedUpdate" : InitObs }))
+    return .val { res := res, wl := ← wlOptOfJson j "wl", writes := ← fNat j "writes", obs := obs }
+
+def andAll (l : List (String × Bool)) : List (String × Bool) :=
+  -- one verdict per key: the conjunction over the walk
+  l.foldl (fun acc (k, v) =>
+    match acc.find? (·.1 == k) with
+    | some _ => acc.map fun (k', v') => if k' == k then (k', v' && v) else (k', v')
+    | none => acc ++ [(k, v)]) []
+
+/-- per-step oracles along the implementation's snapshots -/
+def walkOracles (c : Cfg) : Option Wl → List Step → List (Out StepOut) → List (String × Bool)
+  | d, s :: ss, .val o :: os => stepOracles c s d o ++ walkOracles c o.wl ss os
+  | _, _, _ => []
+
+/-- no-crash oracle on every step of the implementation's walk, the panicking one included -/
+def crashOracles (rel : Rel) : Option Wl → List Step → List (Out StepOut) → List (String × Bool)
+  | d, s :: ss, o :: os =>
+    [("C07.sts_no_crash", noCrash rel s d (isPanic o)), ("C09.sts_no_crash", noCrash rel s d (isPanic o))] ++
+      (match o with
+       | .val v => crashOracles rel v.wl ss os
+       | .panic => [])
+  | _, _, _ => []
+
+/-- some `UpgradeBatch` of the implementation's walk met a non-empty DaemonSet without `rollingUpdate` -/
+def anyDsNoRU : Option Wl → List Step → List (Out StepOut) → Bool
+  | d, s :: ss, o :: os =>
+    (s.call == .upgradeBatch && (match d with
+                                 | some w => dsNoRU w && replicasOf w != some 0
+                                 | none => false)) ||
+      (match o with
+       | .val v => anyDsNoRU v.wl ss os
+       | .panic => false)
+  | _, _, _ => false
+
+def pairOracles : List Step → List (Out StepOut) → List (String × Bool)
+  | a :: b :: ss, .val oa :: .val ob :: os =>
+    ("C06.sts_idempotent", idempotent a b oa ob) :: pairOracles (b :: ss) (.val ob :: os)
+  | _, _ => []
+
+/-- which branch each step of the implementation's walk took (distribution statistics) -/
+def stepTags : Option Wl → List Step → List (Out StepOut) → List String
+  | d, s :: ss, .val o :: os =>
+    let t := match s.call, d with
+      | .initialize, some d0 =>
+        if o.res = .err then "init:err" else if o.writes = 1 then (if d0.control = .other then "init:reclaimed" else "init:claimed")
+        else "init:already"
+      | .upgradeBatch, some d0 =>
+        if o.res = .err then "upgrade:err" else if o.writes = 1 then "upgrade:wrote"
+        else if replicasOf d0 = some 0 then "upgrade:size0" else "upgrade:satisfied"
+      | .finalize, some _ =>
+        if o.res = .err then "finalize:err" else if s.bpNil then "finalize:full" else "finalize:controlinfo-only"
+      | .submit, some d0 =>
+        if o.res = .rejected then "submit:rejected-by-panic"
+        else match o.wl with
+          | some d' =>
+            if !d0.inProgress && d'.inProgress then "submit:enters-rollout"
+            else if relevant { matched := true } d0 (applyEdit d0 s.edit) then "submit:held-again" else "submit:plain"
+          | none => "submit:?"
+      | _, none => "nowl-step"
+    t :: stepTags o.wl ss os
+  | _, _, _ => []
+
+def usTag : US → String
+  | .absent => "us:absent"
+  | .malformed => "us:malformed"
+  | .present _ .absent => "us:no-rollingUpdate"
+  | .present _ .malformed => "us:rollingUpdate-malformed"
+  | .present _ (.present .absent _ _) => "us:no-partition"
+  | .present _ (.present .malformed _ _) => "us:partition-malformed"
+  | .present _ (.present (.int _) _ _) => "us:partition"
+
+def handle : Handler := fun op inp impl => do
+  match op with
+  | "walk" =>
+    let d0 ← wlOptOfJson inp "wl"
+    let rel : Rel := { batches := ← (← fArrD inp "batches").mapM iosOfJson, rollbackAnno := ← fBool inp "rollbackAnno",
+                       updated := ← fInt inp "updated", noNeedUpdate := ← fOptInt inp "noNeedUpdate" }
+    let world : World := { matched := ← fBool inp "matched" }
+    let steps ← (← fArrD inp "steps").mapM stepOfJson
+    let c : Cfg := { rel := rel, world := world }
+    let outs ← (← jarr impl).mapM outOfJson
+    let model := run c d0 steps
+    -- tags
+    let calls := steps.map fun s => callStr s.call
+    let faults := steps.filter (fun s => s.fault != .none && s.call != .submit)
+    let panicked := outs.any fun o => match o with | .panic => true | _ => false
+    let wrote := outs.any fun o => match o with | .val o => o.writes > 0 | _ => false
+    let tags := [s!"len:{if steps.length ≥ 8 then "8+" else toString steps.length}"] ++
+      (match d0 with
+       | some d => [s!"kind:{kindStr d.kind}", usTag d.us] ++
+                   (if isUnordered d.kind d.us then ["unordered"] else []) ++
+                   (match replicasOf d with
+                    | some r => if r > maxInt16 then ["size:>MaxInt16"] else if r = 0 then ["size:0"] else []
+                    | none => ["size:nil"])
+       | none => ["nowl"]) ++
+      (calls.eraseDups.map fun c => s!"has:{c}") ++
+      (if faults.isEmpty then [] else ["faulted"]) ++
+      (if steps.any (fun s => s.fault == .get && s.call != .submit) then ["fault:get"] else []) ++
+      (if steps.any (fun s => s.fault == .list && s.call != .submit) then ["fault:list"] else []) ++
+      (if steps.any (fun s => s.fault == .write && s.call != .submit) then ["fault:write"] else []) ++
+      (if panicked then ["panic"] else []) ++
+      (if rel.noNeedUpdate.isSome then ["noNeedUpdate"] else []) ++
+      (if wrote then [] else ["nowrite"]) ++
+      (if steps.isEmpty then ["trivial"] else []) ++
+      (stepTags d0 steps outs).eraseDups ++
+      (if anyDsNoRU d0 steps outs then ["upgrade:ds-no-rollingUpdate"] else []) ++
+      (if (steps.zip steps.tail).any (fun (a, b) => sameCall a b) then ["repeat"] else [])
+    -- oracles on the implementation's snapshots
+    let stepH := walkOracles c d0 steps outs
+    let pairH := pairOracles steps outs ++ crashOracles rel d0 steps outs
+    let vs := valsOf outs
+    -- C05 round trip: the user's view survives every step, every complete Finalize releases the knobs
+    let (rtH, rtTags) := match d0 with
+      | some d => ([("C05.sts_round_trip", roundTrip d steps vs)], if hasRelease steps vs then ["roundtrip"] else [])
+      | none => ([], [])
+    -- C01 walk bound (fixed size, the user leaves the update strategy alone)
+    let wbH := match d0 with
+      | some d =>
+        match replicasOf d with
+        | some r =>
+          if quiet steps ∧ sizeOK r ∧ nnOK r rel.noNeedUpdate then
+            [("C01.sts_walk_bound", walkBounded rel r (exposureW d) steps vs)]
+          else []
+        | none => []
+      | none => []
+    return { model := arrJ (model.map outToJson), holds := andAll (stepH ++ pairH ++ rtH ++ wbH), tags := tags ++ rtTags }
+  | _ => .error s!"ctlsts: unknown op {op}"
+
 end RV.Drv.CtlSts
